@@ -1723,3 +1723,23 @@ def r2_11(rep):
         rep.check(not bad, "padding-align-divides-size-and-start", "the padding's alignment is 1, or tested to divide its size and its start offset" if not bad else
                   "the padding blob gets alignment `%s` without checking that it divides the padding size and the offset the padding starts at"
                   % b.canon(bad[0], 3)[:60], b.loc(c))
+
+
+@RULES.rule("R2.12", "padding emitted by `add_tail_padding` is counted, so the final `pad_struct` does not add it again", floor=1)
+def r2_12(rep):
+    """With `--explicit-padding` CompInfo::codegen first asks `add_tail_padding` and then, like always, `pad_struct`.  Both compute
+    `size - latest_offset`.  When the struct ends in a bit-field unit `pad_struct` pads regardless of the size of the gap, so unless
+    the first one advances the running offset the tail is padded twice: `struct T { int a:3; }` becomes 1 + 3 + 3 bytes, size 8
+    instead of 4 (the bindings' own size assertion fails to compile)."""
+    prog = rep.prog
+    ms = {p.split("::")[-1]: b for p, b in prog.bodies.items() if "StructLayoutTracker" in p}
+    b = rep.need(ms.get("add_tail_padding"), "StructLayoutTracker::add_tail_padding")
+    pf = [c for c in b.calls(lambda n: n["k"] == "MCall" and n.get("name") == "padding_field")]
+    rep.need(pf, "the padding_field call of add_tail_padding")
+    upd = [n for n in b.nodes if n["k"] in ("Assign", "AssignOp") and strip(n["l"]).get("k") == "Field" and strip(n["l"])["f"] == "latest_offset"]
+    ok = bool(upd) and all([g for g in b.guards(u) if g[1] == "cond"] == [g for g in b.guards(pf[0]) if g[1] == "cond"] for u in upd)
+    rep.check(ok, "tail-padding-advances-offset", "the running offset is moved to the end of the emitted padding" if ok else
+              "add_tail_padding emits a padding field without advancing `latest_offset`: pad_struct sees the same gap again", b.loc(pf[0]))
+    cg = rep.need(prog.impl_fn("codegen::CodeGenerator", "ir::comp::CompInfo", "codegen"), "<CompInfo as CodeGenerator>::codegen")
+    order = [(c["_i"], c["name"]) for c in cg.calls(lambda n: n["k"] == "MCall" and n.get("name") in ("add_tail_padding", "pad_struct"))]
+    rep.note("order", [n for _, n in sorted(order)])
